@@ -270,7 +270,31 @@ pub fn run_case(rep: &Report, c: &Case, rng: &mut Rng, core: Option<usize>) {
     all_clean.extend_from_slice(&clean);
     // the twins differ by construction in the breakpoint mnemonic (shown in 'Output of line' headers when
     // instructions share a line) and in the trap bit shown by 'print flags'
-    let norm = |v: &[u8]| -> Vec<u8> { String::from_utf8_lossy(v).replace("int 3", "cld").replace("TF : 1", "TF : 0").into_bytes() };
+    let norm = |v: &[u8]| -> Vec<u8> {
+        // the trap digit shown by `print flags`: the name TF as a whole word, separators, then 0/1 (layout not prescribed)
+        let s = String::from_utf8_lossy(v).replace("int 3", "cld");
+        let b = s.as_bytes();
+        let mut out = Vec::with_capacity(b.len());
+        let mut i = 0;
+        while i < b.len() {
+            let word_before = i > 0 && (b[i - 1].is_ascii_alphanumeric() || b[i - 1] == b'_');
+            if !word_before && b[i..].starts_with(b"TF") && !(i + 2 < b.len() && (b[i + 2].is_ascii_alphanumeric() || b[i + 2] == b'_')) {
+                let mut k = i + 2;
+                while k < b.len() && (b[k] == b' ' || b[k] == b'\t' || b[k] == b':' || b[k] == b'=') {
+                    k += 1;
+                }
+                if k < b.len() && (b[k] == b'0' || b[k] == b'1') && k > i + 2 {
+                    out.extend_from_slice(&b[i..k]);
+                    out.push(b'0');
+                    i = k + 1;
+                    continue;
+                }
+            }
+            out.push(b[i]);
+            i += 1;
+        }
+        out
+    };
     let all_clean = norm(&all_clean);
     let bplain = norm(&bp.plain);
     if all_clean != bplain {
